@@ -3864,7 +3864,8 @@ TRUSTED_LINE = ("loop-IR tie: the translator tools/props/_loopir.py (Python ast 
                 "T7: the FFT-based kernels arma2psd (theorem for all inputs), minvar as a whole function, CORRELOGRAMPSD (CORRELATION embedded) and the 1-D path of speriodogram are "
                 "translated as well: numpy.fft.fft / rfft are the DFT specification of Theory/Dft.v over a hidden twiddle parameter (exact runs with tw1/tw2/tw4, binary64 runs with "
                 "a harness table), Window samples / numpy.pi / xcorr / pylab_rms_flat are oracle inputs; T8: `run program = model` is a theorem also for minvar (whole function, no side condition), "
-                "the 1-D speriodogram (window of the data's length, non-integer flags) and CORRELOGRAMPSD (both correlation back ends on the comparator's domain)")
+                "the 1-D speriodogram (window of the data's length, non-integer flags) and CORRELOGRAMPSD (both correlation back ends on the comparator's domain); T9: rlevinson for ALL orders "
+                "(every input; supersedes the order-1 statement above) and, by composition, poly2ac, poly2rc, rc2ac")
 
 
 def loopir_tie(ctx, names):
